@@ -1102,6 +1102,60 @@ def s_lookup_by_matrix():
     idx = np.array([[0, 2], [1, 1]])
     return table[idx], 2.0 * table[idx]
 
+_TABLE = str.maketrans("{}", "[]")
+
+def s_str_translate():
+    return "{a}, {b}".translate(_TABLE), " x: [{1}] ".strip().rpartition(":")[2].strip().translate(str.maketrans("{}", "[]"))
+
+def s_np_select():
+    a = np.array([-1, 0, 2, -1])
+    b = np.array([-1, 1, 1, 3])
+    return np.select([(a == -1) & (b == -1), a == -1, b == -1, a < b, a > b], [5, 3, 4, 0, 1], default=2)
+
+def s_np_repeat_counts():
+    return np.repeat(np.arange(3), [2, 0, 1]), np.repeat(np.array([7, 8]), 2)
+
+def s_fancy_pairs_store_from_tuples():
+    m = np.full((3, 2), -1, dtype=np.int32)
+    cells = [(0, 1, 5), (2, 0, 7)]
+    rows, cols, vals = zip(*cells)
+    m[np.asarray(rows), np.asarray(cols)] = vals
+    return m
+
+def s_bincount_situations():
+    sit = np.array([5, 0, 0, 2])
+    return np.bincount(sit, minlength=6), np.bincount(sit, minlength=6).astype(np.int64)
+
+def s_generator_function():
+    log = []
+    def gen(n):
+        log.append("start")
+        for i in range(n):
+            if i == 2:
+                continue
+            yield i * i
+        yield from [100, 200]
+        log.append("end")
+    g = gen(4)
+    before = list(log)
+    out = list(g)
+    return before, out, log, list(g), {x for x in gen(3)}
+
+def s_generator_raises_on_consumption():
+    def gen():
+        yield 1
+        raise ValueError("bad")
+    g = gen()
+    try:
+        return list(g)
+    except ValueError:
+        return "raised at consumption"
+
+def s_object_sentinel():
+    missing = object()
+    d = {"a": 1}
+    return d.get("b", missing) is missing, d.get("a", missing) is missing, next(iter([]), missing) is missing, missing == missing, missing == object()
+
 def s_round_half_array():
     return [round(x) for x in (0.5, 1.5, -0.5)], int(0.5 + 0.5), int(-0.5 - 0.5)
 '''
